@@ -31,11 +31,13 @@ LEVEL_TEXT = (
     "taking an iterable of individuals and a tracker) - wherever it lives and however it is built - is "
     "interpreted on [already evaluated, not evaluated]: every individual is handed to the tracker, because steps "
     "evaluate through the raw evaluator and the tracker's best - what a target-fitness budget reads - is updated "
-    "only inside tracker.evaluate. (R6) functions outside the budget module that build a budget from their own "
-    "parameters (SimpleGP.build_budget) are interpreted with the parameter at 0, 0.0, a negative and a positive "
-    "value: the budget returned contains a budget of that class built from that very value (a target of 0 is a "
-    "target), and callers hand the parameter over without an 'or' fall-back. Termination for arbitrary user step "
-    "compositions is not decidable and not claimed."
+    "only inside tracker.evaluate. (R6) functions outside the budget module that assemble a budget "
+    "(SimpleGP.build_budget) are interpreted: a parameter that, set to 7, turns up inside a budget object of the "
+    "value returned - whatever the spelling: constructor calls, a table of classes folded with reduce - is a "
+    "budget parameter, and with 0, 0.0 and a negative value (target budgets) or 1 (the others) the budget "
+    "returned still contains a budget of that class built from that very value (a target of 0 is a target), and "
+    "callers hand the parameter over without an 'or' fall-back. Termination for arbitrary user step compositions "
+    "is not decidable and not claimed."
 )
 
 
@@ -476,81 +478,97 @@ def _budget_models(ctx: Ctx) -> int:
 
 
 def _builder_models(ctx: Ctx) -> int:
-    """Functions outside the budget module that construct a SearchBudget from one of their own parameters (geml's SimpleGP.build_budget)
-    are interpreted with that parameter set to 0, 0.0, a negative and a positive number (the other parameters distinct numbers): the
-    budget object returned must contain a budget of that class built from that very value - `if target:` would drop a target of 0, and
-    the search would run to its evaluation budget although the target was met."""
+    """Functions outside the budget module that assemble a SearchBudget from their own parameters (geml's SimpleGP.build_budget) are
+    interpreted: a parameter counts as a budget parameter when, set to 7, it turns up inside a budget object of the value returned
+    (whatever the spelling: a constructor call, a table of classes folded with reduce, keyword arguments).  For every such
+    parameter the function is interpreted again with 0, 0.0 and a negative number (target-like budgets) or 1 (the others): the budget
+    returned must still contain a budget of that class built from that very value - `if target:` would drop a target of 0, and the
+    search would run to its evaluation budget although the target was met."""
     from ..modelinterp import Budget, Interp, Obj, Sym, UNKNOWN, _NONE
     prog, res = ctx.prog, ctx.res
     bclasses = {c.name: c for c in prog.subclasses(BUDGET) if c.fullname != BUDGET}
-    n = 0
+
+    def call_model(it, c_, env, args, kwargs):
+        nm = call_name(c_)
+        if nm in bclasses and isinstance(c_.func, (ast.Name, ast.Attribute)):
+            return Obj("budget:" + nm, {"args": list(args) + list(kwargs.values()), "kwargs": {}})
+        return None
+
+    def budgets_in(v, depth=0):
+        if depth > 8:
+            return
+        if isinstance(v, Obj):
+            if v.cls.startswith("budget:"):
+                yield v
+            for a in list(v.fields.get("args", [])) + list(v.fields.get("kwargs", {}).values()):
+                yield from budgets_in(a, depth + 1)
+        elif isinstance(v, (list, tuple)):
+            for a in v:
+                yield from budgets_in(a, depth + 1)
+
+    def holds(v, cls, val) -> bool:
+        return any(b.cls == "budget:" + cls and any(a == val and type(a) is type(val) for a in b.fields.get("args", [])) for b in budgets_in(v))
+
+    def run_with(f, pname, val):
+        env = {}
+        others = iter((11, 13, 17, 19, 23, 29, 31))
+        for q in f.params:
+            env[q] = Sym("self") if q == "self" else (val if q == pname else next(others, 37))
+        it = Interp(prog, f.cls, lambda *_: None, call_model, max_depth=6, max_traces=8)
+        try:
+            runs = it.run(f, env)
+        except Budget:
+            return None, "too many interpretations"
+        out = []
+        for trace, rv, notes in runs:
+            if notes:
+                return None, notes[0]
+            if any(e.kind == "raise" for e in trace):
+                return None, "the function raises in the model"
+            if rv is UNKNOWN or rv is None:
+                return None, "returned budget not followed"
+            out.append(rv)
+        return out, ""
+
+    # candidates: functions outside the budget module that call a budget class, or that are named / annotated as budget builders
+    cands = []
     for f in sorted(prog.functions.values(), key=lambda x: x.fullname):
-        if f.parent is not None or (f.cls is not None and prog.is_subclass(f.cls, BUDGET)):
+        if f.parent is not None or (f.cls is not None and prog.is_subclass(f.cls, BUDGET)) or f.module.name.endswith("evaluation.budget") \
+                or not isinstance(f.node, ast.FunctionDef) or len([q for q in f.params if q != "self"]) < 1:
             continue
-        sites = []
-        for c in walk_local(f.node):
-            if isinstance(c, ast.Call) and call_name(c) in bclasses and isinstance(c.func, (ast.Name, ast.Attribute)) and len(c.args) + len(c.keywords) == 1:
-                a0 = c.args[0] if c.args else c.keywords[0].value
-                if isinstance(a0, ast.Name) and a0.id in f.params and a0.id != "self":
-                    sites.append((c, call_name(c), a0.id))
-                elif is_self_attr(a0) and f.params and f.params[0] == "self" and f.cls is not None \
-                        and sum(1 for c3 in ast.walk(f.node) if isinstance(c3, ast.Call) and call_name(c3) in bclasses) >= 2:
-                    sites.append((c, call_name(c), "self." + a0.attr))     # a builder method reading configured attributes
-        for call, kname, pname in sites:
+        direct = sum(1 for c in walk_local(f.node) if isinstance(c, ast.Call) and call_name(c) in bclasses) >= 2
+        ann = f.node.returns is not None and any(k in norm(f.node.returns) for k in list(bclasses) + ["SearchBudget"])
+        named = "budget" in f.name.lower() and any(prog.resolve_name(f.module, k) for k in bclasses)
+        if direct or ann or named:
+            cands.append(f)
+    n = 0
+    for f in cands:
+        for pname in [q for q in f.params if q != "self"]:
+            outs, why = run_with(f, pname, 7)
+            if outs is None:
+                continue            # not followed with the control value: no claim about this parameter
+            knames = {b.cls[7:] for rv in outs for b in budgets_in(rv) if any(a == 7 and type(a) is int for a in b.fields.get("args", []))}
+            if len(knames) != 1:
+                continue            # the parameter does not flow into (exactly one class of) budget
+            kname = next(iter(knames))
             n += 1
             k = bclasses[kname]
             done = prog.lookup_method(k, "is_done")
             target_like = done is not None and any(isinstance(x, ast.Call) and call_name(x) in ("get_best_individual", "get_best_individuals") for x in ast.walk(done.node))
-            values = (0, 0.0, -2.5, 7) if target_like else (1, 7)
-
-            def call_model(it, c_, env, args, kwargs):
-                nm = call_name(c_)
-                if nm in bclasses and isinstance(c_.func, (ast.Name, ast.Attribute)):
-                    return Obj("budget:" + nm, {"args": list(args) + list(kwargs.values()), "kwargs": {}})
-                return None
-
-            def contains(v, cls, val, depth=0) -> bool:
-                if depth > 8:
-                    return False
-                if isinstance(v, Obj):
-                    if v.cls == "budget:" + cls and any(a == val and type(a) is type(val) for a in v.fields.get("args", [])):
-                        return True
-                    return any(contains(a, cls, val, depth + 1) for a in list(v.fields.get("args", [])) + list(v.fields.get("kwargs", {}).values()))
-                if isinstance(v, (list, tuple)):
-                    return any(contains(a, cls, val, depth + 1) for a in v)
-                return False
-
             bad = und = None
-            for val in values:
-                env = {}
-                others = iter((11, 13, 17, 19, 23))
-                for q in f.params:
-                    env[q] = Sym("self") if q == "self" else (val if q == pname else next(others, 29))
-                if pname.startswith("self."):
-                    for a_ in {x.attr for x in ast.walk(f.node) if is_self_attr(x)}:
-                        env["self." + a_] = val if "self." + a_ == pname else next(others, 29)
-                it = Interp(prog, f.cls, lambda *_: None, call_model, max_depth=6, max_traces=8)
-                try:
-                    runs = it.run(f, env)
-                except Budget:
-                    und = und or "too many interpretations"
+            for val in ((0, 0.0, -2.5) if target_like else (1,)):
+                outs2, why2 = run_with(f, pname, val)
+                if outs2 is None:
+                    und = und or why2
                     continue
-                for trace, rv, notes in runs:
-                    if notes:
-                        und = und or notes[0]
-                    elif any(e.kind == "raise" for e in trace):
-                        und = und or "the function raises in the model"
-                    elif rv is UNKNOWN or rv is None or rv is _NONE and False:
-                        und = und or "returned budget not followed"
-                    elif not contains(rv, kname, val) and bad is None:
+                for rv in outs2:
+                    if not holds(rv, kname, val) and bad is None:
                         bad = (f"{f.qualname}({pname}={val!r}) returns a budget without {kname}({val!r}): "
                                + (f"a target of {val!r} is treated as 'no target' and the search runs on to its other budgets although the target is met"
                                   if target_like else "a budget the caller gave is dropped"))
-            ctx.ob("C14.R6", f, call, f"{f.qualname}: the budget returned contains {kname}(<{pname}>) for every value given", False if bad else (None if und else True), bad or und or "")
+            ctx.ob("C14.R6", f, f.node, f"{f.qualname}: the budget returned contains {kname}(<{pname}>) for every value given", False if bad else (None if und else True), bad or und or "")
             # the callers hand the parameter over unchanged ('x or None' would turn 0 into 'absent')
             for g in prog.functions.values():
-                if pname.startswith("self."):
-                    break
                 for c2 in res.calls_in(g, include_nested=False):
                     if call_name(c2) == f.name and isinstance(c2.func, ast.Attribute):
                         idx = f.params.index(pname) - (1 if f.params and f.params[0] == "self" else 0)
